@@ -19,3 +19,7 @@ add("C01", "exploration", "runtime monitor: Go-map reference model checked after
 add("C02", "exploration", "runtime monitor: independent canonical-trie hasher + six histories per content + own decoder read-back",
     "For 12 800 (quick) / 320 000 (thorough) contents, six different operation histories ending in the same content are executed at a fixed version; the root after every operation must equal an independent implementation of the node-hash format applied to the canonical trie of the model content; stored encodings are read back with the harness' own parser; root->content injectivity is checked per worker.",
     "The reference hasher encodes the format as read from the pinned code (sha3-256 over LE64(origin)‖body); it shares no code with /repo.")
+
+add("C03", "exploration", "runtime monitor: map models per trie + byte-identical observation tuples of bystander tries + pending-change integrity, over generated block histories",
+    "40 000 (quick) / 800 000 (thorough) block histories with several concurrently open children, grandchildren, merges, discards and stale merges; after each step the observation tuple (root, content, pending changes with encodings, deletes) of every uninvolved trie must be byte-identical, child views must equal the model, stale merges must be rejected, and every pending change must re-hash to its key and equal the stored node.",
+    "Observation uses the public API (GetChanges/Iterate/Encode) plus the harness' own parser; stale children's views are not judged after their parent moved on.")
